@@ -16,6 +16,7 @@ import Mathlib.LinearAlgebra.Matrix.PosDef
 import Mathlib.LinearAlgebra.Matrix.Kronecker
 import Mathlib.Analysis.SpecialFunctions.Sqrt
 import QV.Lemmas.Kron
+import QV.Lemmas.KronLoop
 import QV.Lemmas.Hilbert
 import QV.Real
 
@@ -191,6 +192,32 @@ theorem C04_rho_probs_dense (us : Fin n → M2 ℝ) (rot : Fin n → Bool)
     rotateRhoProbs n us rot ρ σ
       = ((denseK us * (Matrix.of fun a b => toC (ρ a b)) * (denseK us)ᴴ) σ σ).re := by
   rw [C04_rho_probs, C04_fastK_eq_dense us rot hZ]
+
+
+/-! ### the loop form of `_kron_mult` (what the driver executes) -/
+
+/-- **C04.1 (loops)** `rotate_psi` computed with the code's three nested loops and in-place slice updates is the dense
+operator applied to ψ. -/
+theorem C04_rotate_psi_loop (us : Fin n → M2 ℝ) (ψ : List (C ℝ)) (hψ : ψ.length = 2 ^ n) :
+    (fun σ : Fin n → Bool => toC ((rotatePsiL n us ψ).getD (idxOf σ) default))
+      = (denseK us).mulVec (fun τ => toC (ψ.getD (idxOf τ) default)) := by
+  have h := C04_rotate_psi us (fun j => ψ.getD j default)
+  have h' : (denseK us).mulVec (fun τ : Fin n → Bool => toC (ψ.getD (idxOf τ) default))
+      = psiVec (rotatePsi n us (fun j => ψ.getD j default)) := h.symm
+  rw [h']
+  funext σ
+  simp only [psiVec, rotatePsi, rotatePsiL]
+  rw [kronMultLoop_eq C.add C.mul n us ψ hψ (idxOf σ) (idxOf_lt σ)]
+
+/-- **C04.3 (loops)** `rotate_rho` computed with the code's loops (rows carried along, conjugate transpose in between) is
+`K ρᴴ Kᴴ`, entry by entry. -/
+theorem C04_rotate_rho_loop (us : Fin n → M2 ℝ) (ρ : List (Row ℝ)) (hρ : ρ.length = 2 ^ n) :
+    (Matrix.of fun σ τ : Fin n → Bool => toC ((rotateRhoL n us ρ).getD (idxOf σ) default (idxOf τ)))
+      = denseK us * (rhoMat (fun i j => ρ.getD i default j))ᴴ * (denseK us)ᴴ := by
+  rw [← C04_rotate_rho us (fun i j => ρ.getD i default j)]
+  funext σ τ
+  simp only [rhoMat, Matrix.of_apply]
+  rw [rotateRhoL_eq n us ρ hρ _ _ (idxOf_lt σ) (idxOf_lt τ)]
 
 /-! ### unitarity and physical probabilities -/
 
